@@ -1364,4 +1364,104 @@ Section Refine.
       { rewrite bytes_leb_ltb. rewrite bytes_leb_ltb in Hlast. apply Bool.negb_false_iff in Hlast. rewrite (ltb_asym _ _ Hlast). reflexivity. }
       rewrite Hkq. reflexivity.
   Qed.
+
+  (* ================= one step, and whole histories ================= *)
+  Definition relative_op (o : op) : bool :=
+    match o with ONext | OPrev | OCurrent => true | _ => false end.
+  (* the operations the property specifies at position p: everything, except relative moves and
+     `current` after an operation that returned None *)
+  Definition admissible (p : apos) (o : op) : Prop := p = Unspec -> relative_op o = false.
+
+  Theorem step_refines p st o : Rel p st -> admissible p o ->
+    exists st' r, cstep ld root levels st o = Done (st', r) /\
+      Rel (fst (aspec es_all p o)) st' /\ res_ok (snd (aspec es_all p o)) r /\
+      cs_loads st' <= cs_loads st + 2 * N.of_nat (S D).
+  Proof.
+    intros HR Ha.
+    assert (Hn : forall o', relative_op o' = true -> o = o' -> p <> Unspec).
+    { intros o' Hrel -> Hp. specialize (Ha Hp). congruence. }
+    destruct o as [| | | |q|q|q| |].
+    - destruct (first_refines p st HR) as (st' & r & A & B & C & E). exists st', r. split; [exact A|]. split; [exact B|]. split; [exact C|lia].
+    - destruct (last_refines p st HR) as (st' & r & A & B & C & E). exists st', r. split; [exact A|]. split; [exact B|]. split; [exact C|lia].
+    - destruct (next_refines p st HR (Hn ONext eq_refl eq_refl)) as (st' & r & A & B & C & E). exists st', r. split; [exact A|]. split; [exact B|]. split; [exact C|lia].
+    - destruct (prev_refines p st HR (Hn OPrev eq_refl eq_refl)) as (st' & r & A & B & C & E). exists st', r. split; [exact A|]. split; [exact B|]. split; [exact C|lia].
+    - destruct (ge_refines p st q HR) as (st' & r & A & B & C & E). exists st', r. split; [exact A|]. split; [exact B|]. split; [exact C|lia].
+    - exact (le_refines p st q HR).
+    - destruct (eq_refines p st q HR) as (st' & r & A & B & C & E). exists st', r. split; [exact A|]. split; [exact B|]. split; [exact C|lia].
+    - destruct (reset_refines p st HR) as (st' & r & A & B & C & E). exists st', r. split; [exact A|]. split; [exact B|]. split; [exact C|lia].
+    - destruct (current_refines p st HR (Hn OCurrent eq_refl eq_refl)) as (st' & r & A & B & C & E). exists st', r. split; [exact A|]. split; [exact B|]. split; [exact C|lia].
+  Qed.
+
+  (* a history on one cursor *)
+  Fixpoint run_ops (st : cstate) (ops : list op) : outcome (cstate * list (option entry)) :=
+    match ops with
+    | [] => Done (st, [])
+    | o :: r => do x <- cstep ld root levels st o; do y <- run_ops (fst x) r; Done (fst y, snd x :: snd y)
+    end.
+  Fixpoint spec_ops (p : apos) (ops : list op) : apos * list (option (option entry)) :=
+    match ops with
+    | [] => (p, [])
+    | o :: r => let x := aspec es_all p o in let y := spec_ops (fst x) r in (fst y, snd x :: snd y)
+    end.
+  Fixpoint admissible_ops (p : apos) (ops : list op) : Prop :=
+    match ops with
+    | [] => True
+    | o :: r => admissible p o /\ admissible_ops (fst (aspec es_all p o)) r
+    end.
+
+  Theorem history_refines : forall ops p st, Rel p st -> admissible_ops p ops ->
+    exists st' rs, run_ops st ops = Done (st', rs) /\ Rel (fst (spec_ops p ops)) st' /\
+      Forall2 res_ok (snd (spec_ops p ops)) rs.
+  Proof.
+    induction ops as [|o ops IH]; intros p st HR Ha; cbn [run_ops spec_ops].
+    - exists st, []. split; [reflexivity|]. split; [exact HR|constructor].
+    - destruct Ha as [Ha1 Ha2].
+      destruct (step_refines p st o HR Ha1) as (st1 & r1 & E1 & HR1 & Hr1 & _). rewrite E1. cbn [bind fst snd].
+      destruct (IH _ st1 HR1 Ha2) as (st' & rs & E & HR' & Hrs). rewrite E. cbn [bind fst snd].
+      exists st', (r1 :: rs). split; [reflexivity|]. split; [exact HR'|]. constructor; assumption.
+  Qed.
+
+  (* a fresh cursor is related to the never-positioned abstract cursor; so is any cursor after reset *)
+  Lemma fresh_rel : Rel Fresh cs_fresh.
+  Proof. split; reflexivity. Qed.
 End Refine.
+
+(* ================= packaged statements ================= *)
+(* A well-formed store: what a reader sees of a well-formed file.  bstore maps the offset of every
+   block to (parsed block, its entries, its restart indices); levels = index_levels. *)
+Record wf_store (ld : N -> N -> outcome block) (root levels : N)
+                (bstore : N -> option (block * list entry * list nat)) : Prop := mk_wf_store {
+  ws_ld : forall off b es ridx, bstore off = Some (b, es, ridx) ->
+          (forall ord, ld ord off = Done b) /\ wfblock b es ridx /\ es <> [];
+  ws_disj : forall k it, In it (lseq root bstore k) -> ~ In (coff it) (offs root bstore k);
+  ws_root : exists rb rridx, bstore root = Some (rb, root_items root bstore, rridx);
+  ws_items : forall k, (k < S (N.to_nat levels))%nat -> Forall (item_ok bstore) (lseq root bstore k);
+  ws_sorted : forall k, (k <= S (N.to_nat levels))%nat -> sorted_strictb (map fst (lseq root bstore k)) = true;
+  ws_last : forall k g it, (k < S (N.to_nat levels))%nat -> nth_error (lseq root bstore k) g = Some it ->
+            option_map fst (last_opt (kids bstore it)) = Some (fst it) }.
+
+(* the logical content of the store: the entries of the data level, in order *)
+Definition content (root levels : N) (bstore : N -> option (block * list entry * list nat)) : list entry :=
+  es_all root bstore levels.
+
+Theorem R_step ld root levels bstore : wf_store ld root levels bstore ->
+  forall p st o, Rel root bstore levels p st -> admissible p o ->
+  exists st' r, cstep ld root levels st o = Done (st', r) /\
+    Rel root bstore levels (fst (aspec (content root levels bstore) p o)) st' /\
+    res_ok (snd (aspec (content root levels bstore) p o)) r /\
+    cs_loads st' <= cs_loads st + 2 * (levels + 2).
+Proof.
+  intros [H1 H2 (rb & rridx & H3) H4 H5 H6] p st o HR Ha.
+  destruct (step_refines ld root bstore H1 H2 rb rridx H3 levels H4 H5 H6 p st o HR Ha) as (st' & r & A & B & C & E).
+  exists st', r. split; [exact A|]. split; [exact B|]. split; [exact C|]. lia.
+Qed.
+
+Theorem R_history ld root levels bstore : wf_store ld root levels bstore ->
+  forall ops p st, Rel root bstore levels p st -> admissible_ops root bstore levels p ops ->
+  exists st' rs, run_ops ld root levels st ops = Done (st', rs) /\
+    Rel root bstore levels (fst (spec_ops root bstore levels p ops)) st' /\
+    Forall2 res_ok (snd (spec_ops root bstore levels p ops)) rs.
+Proof.
+  intros [H1 H2 (rb & rridx & H3) H4 H5 H6].
+  exact (history_refines ld root bstore H1 H2 rb rridx H3 levels H4 H5 H6).
+Qed.
